@@ -95,6 +95,18 @@ def check(facts, rep, tier, cfg):
                         "peer's Finish) the notification is discarded, the peer is never told and the flow id is never released" % loc_str(b.term(extra[0])["loc"]))
             else:
                 rep.ok("C06.R1", "consumer-closes-every-dropped-flow", wc, "close_flow(id, false) depends on the id only")
+            # the id that is closed is the id that was reported (moves only)
+            from an import inexact_steps as _ixc
+            idarg = b.term(cbi)["args"][1] if len(b.term(cbi)["args"]) > 1 else None
+            if idarg is not None:
+                stc = _ixc(trc.operand(idarg), lambda y: y.kind == "call" and y[6] in ("recv", "poll_recv", "try_recv", "poll"), 32,
+                           extra_calls=("poll", "into_future", "new_unchecked", "get_context"))
+                if stc:
+                    rep.bad("C06.R1", "consumer-closes-the-reported-id", wc,
+                            "the flow closed for a dropped stream is `%s`, not the id that was reported: another stream is aborted and the dropped "
+                            "one keeps its slot" % stc[0])
+                else:
+                    rep.ok("C06.R1", "consumer-closes-the-reported-id", wc, "close_flow(reported id)", nontrivial=False)
     rep.floor("C06.R1", "close calls in the dropped-flows consumer", kc, 1)
     # ---- R2 / R4 from the reaction table
     rep.rule("C06.R2", "close = remove + closed flag + wake + inbound sender dropped (reaction-table cells)")
